@@ -352,28 +352,27 @@ func c02Descriptor(c *Ctx, helpers map[*ssa.Function]bool, typeName string, _ []
 		if len(fn.Params) != 1 || ir.TypeStr(fn.Params[0].Type()) != "*encoding/json.RawMessage" {
 			continue
 		}
+		// the decoder and the helpers it is split into (static library callees, three levels)
+		parts := staticClosure(c, fn, 3)
 		builds := false
-		ir.EachInstr(fn, func(_ *ssa.BasicBlock, _ int, in ssa.Instruction) {
-			if al, ok := in.(*ssa.Alloc); ok {
-				if n, ok := al.Type().(*types.Pointer).Elem().(*types.Named); ok && n == T {
-					builds = true
+		for _, part := range parts {
+			ir.EachInstr(part, func(_ *ssa.BasicBlock, _ int, in ssa.Instruction) {
+				if al, ok := in.(*ssa.Alloc); ok {
+					if n, ok := al.Type().(*types.Pointer).Elem().(*types.Named); ok && n == T {
+						builds = true
+					}
 				}
-			}
-		})
+			})
+		}
 		if !builds {
 			continue
 		}
 		where = append(where, fname(fn))
-		for _, kr := range keysRead(fn, helpers) {
-			read[kr.key] = true
-		}
-		ir.EachCall(fn, func(call ssa.CallInstruction) {
-			if sc := ir.StaticCallee(call); sc != nil && c.P.IsLib(sc) {
-				for _, kr := range keysRead(sc, helpers) {
-					read[kr.key] = true
-				}
+		for _, part := range parts {
+			for _, kr := range keysRead(part, helpers) {
+				read[kr.key] = true
 			}
-		})
+		}
 	}
 	if len(where) == 0 {
 		c.R.Break("no hand-written decoder building %s from a raw message found", typeName)
@@ -579,4 +578,25 @@ func c02ErrCarry(c *Ctx) {
 		}
 	}
 	c.R.Min("R-err-carry", 14)
+}
+
+// staticClosure: fn and the library functions it reaches through static calls within the given depth.
+func staticClosure(c *Ctx, fn *ssa.Function, depth int) []*ssa.Function {
+	seen := map[*ssa.Function]bool{fn: true}
+	out := []*ssa.Function{fn}
+	frontier := []*ssa.Function{fn}
+	for d := 0; d < depth; d++ {
+		var next []*ssa.Function
+		for _, f := range frontier {
+			ir.EachCall(f, func(call ssa.CallInstruction) {
+				if sc := ir.StaticCallee(call); sc != nil && c.P.IsLib(sc) && !seen[sc] {
+					seen[sc] = true
+					out = append(out, sc)
+					next = append(next, sc)
+				}
+			})
+		}
+		frontier = next
+	}
+	return out
 }
